@@ -456,13 +456,112 @@ def stale_derived_values(ctx, rule, prefixes, what):
     ctx.holds(rule, what + ' (derived stored values are refreshed by every writer of what they derive from: %d writer sites)' % n_checked, None)
 
 
+def split_cache_paths(ctx, fn, ps):
+    """A reader that keeps what it computed (a lazily filled field, a per-name memo table on the object) has two kinds of paths: the MISS computes the figure from
+    the object's state and stores it, the HIT hands back what an earlier miss stored.  -> (miss paths with the caching writes marked, hit paths, cache descriptions)
+    cache description: (location term written on the miss, root field name on self, set of self-fields the stored value reads).  Paths that do not touch a cache
+    location are misses with no write."""
+    self_ = V('self')
+    written = {}
+    for i, p in enumerate(ps):
+        for w in heap_writes(p):
+            loc = w.loc
+            root = loc
+            while root[0] in ('sub', 'attr') and not (root[0] == 'attr' and root[1] == self_):
+                root = root[1]
+            if root[0] == 'attr' and root[1] == self_ and w.value is not None:
+                written.setdefault(loc, []).append((i, w, root[2]))
+    if not written:
+        return list(ps), [], []
+
+    def reads(p, loc):
+        pre = [c for c, _, _ in p.conds] + ([p.value] if p.value is not None else [])
+        return any(s_ == loc for t_ in pre for s_ in T.subterms(t_))
+    hits, misses, caches = [], [], []
+    for i, p in enumerate(ps):
+        own = {loc for loc, ws in written.items() if any(j == i for j, _, _ in ws)}
+        foreign_read = [loc for loc in written if loc not in own and reads(p, loc) and p.value is not None and any(s_ == loc for s_ in T.subterms(p.value))]
+        if foreign_read and not own:
+            hits.append(p)
+        else:
+            misses.append(p)
+    for loc, ws in written.items():
+        deps = set()
+        for i, w, root in ws:
+            deps |= {s_[2] for s_ in T.subterms(w.value) if s_[0] == 'attr' and s_[1] == self_ and s_[2] != root}
+        caches.append((loc, ws[0][2], deps))
+    return misses, hits, caches
+
+
+def cache_invalidation(ctx, rule, cls, caches, what):
+    """Every method of the class that assigns a field a cached figure was computed from must drop the cache: rebind or clear the cache's root field (or set the
+    cached slot to None) in the same function, directly or through a method of the object that does.  Established -> holds; a class-level cache -> violation (shared by
+    all instances); otherwise the ordering argument (e.g. "every fill re-marks first") is not made here -> undecided."""
+    M = ctx.M
+    ok_all = True
+    for loc, root, deps in caches:
+        if class_level_table(M, cls, root):
+            ctx.violation(rule, what, cls.path, 'the cache %s is a class attribute never rebound per instance: every %s shares it' % (root, cls.name), key='%s|cache-shared|%s' % (rule, root))
+            ok_all = False
+            continue
+        def drops(fn_node):
+            for k in ast.walk(fn_node):
+                kt = k.targets if isinstance(k, ast.Assign) else ([k.target] if isinstance(k, (ast.AugAssign, ast.AnnAssign)) else [])
+                for t in kt:
+                    b = t
+                    while isinstance(b, (ast.Subscript, ast.Attribute)) and not (isinstance(b, ast.Attribute) and isinstance(b.value, ast.Name) and b.value.id == 'self'):
+                        b = b.value
+                    if isinstance(b, ast.Attribute) and b.attr == root and isinstance(b.value, ast.Name) and b.value.id == 'self':
+                        if t is b or (isinstance(k, ast.Assign) and isinstance(k.value, ast.Constant) and k.value.value is None):
+                            return True
+                if isinstance(k, ast.Call) and isinstance(k.func, ast.Attribute) and k.func.attr in ('clear', 'pop', 'popitem') and \
+                        isinstance(k.func.value, ast.Attribute) and k.func.value.attr == root:
+                    return True
+                if isinstance(k, ast.Delete):
+                    for t in k.targets:
+                        if root in ast.unparse(t):
+                            return True
+            return False
+        droppers = {n for n, m in cls.methods.items() if drops(m.node)}
+        for n, m in cls.methods.items():
+            if any(isinstance(k, ast.Call) and isinstance(k.func, ast.Attribute) and isinstance(k.func.value, ast.Name) and k.func.value.id == 'self' and k.func.attr in droppers
+                   for k in ast.walk(m.node)):
+                droppers = droppers | {n}
+        bad = []
+        for dep in sorted(deps):
+            for w in writers_of_attr(M, dep, owner=cls.name):
+                g = w.fn
+                if g.cls is None or g.cls.name not in M.owner_family(cls.name) or g.name == '__init__' or M.ctor_only(g):
+                    continue
+                gname = g.qn.split('.', 1)[1] if '.' in g.qn else g.qn
+                if gname not in droppers and g.name not in droppers:
+                    bad.append('%s writes %s' % (g.qn, dep))
+        if bad:
+            ok_all = False
+            ctx.undecided(rule, what, cls.path, 'the cached %s is computed from %s; %s without dropping the cache in the same step - whether an earlier step always did is not decided here'
+                          % (fmt(loc)[:60], sorted(deps), '; '.join(sorted(set(bad))[:3])))
+        else:
+            ctx.holds(rule, what + ' (cache %s is dropped by every method that writes %s)' % (fmt(loc)[:40], sorted(deps)), cls.path)
+    return ok_all
+
+
 def class_level_table(M, cls, fld):
     """<fld> is declared in the class body (of cls or a base) and no constructor rebinds it per instance: one object shared by every instance"""
     if not any(fld in k.class_attrs for k in cls.mro()):
         return False
     for k in [cls] + [c for c in M.classes.values() if cls in c.mro() or c in cls.mro()]:
+        # what every construction runs: __init__ and the methods it calls on self (whoever else calls them too)
+        reach, todo = set(), ['__init__']
+        while todo:
+            n0 = todo.pop()
+            if n0 in reach or n0 not in k.methods:
+                continue
+            reach.add(n0)
+            for x in ast.walk(k.methods[n0].node):
+                if isinstance(x, ast.Call) and isinstance(x.func, ast.Attribute) and isinstance(x.func.value, ast.Name) and x.func.value.id == 'self':
+                    todo.append(x.func.attr)
         for name, m in k.methods.items():
-            if name != '__init__' and not M.ctor_only(m):
+            if name not in reach and not M.ctor_only(m):
                 continue
             for n in ast.walk(m.node):
                 if isinstance(n, (ast.Assign, ast.AnnAssign)):
